@@ -107,6 +107,16 @@ func projectTopErrors(err error, withText bool) []any {
 	return res
 }
 
+// reasonsOnly blanks the rendered message of projected errors (kept: the Reason fields at every nesting level)
+func reasonsOnly(es []any) []any {
+	for _, e := range es {
+		if m, ok := e.(T); ok {
+			m["text"] = []any{}
+		}
+	}
+	return es
+}
+
 // typedSlices converts homogeneous []any of strings / objects into []string / []map[string]any, recursively.
 func typedSlices(v any) (any, bool) {
 	switch x := v.(type) {
@@ -187,6 +197,16 @@ func c12RunWith(c *Case, withText bool) []any {
 			}
 			return nil
 		}))
+		// a caller's validator for strings that hold a JSON document: it checks the decoded document against a schema of
+		// its own and hands the library's schema error (which has a path INSIDE that document) back
+		inner := openapi3.NewObjectSchema().WithProperty("a", openapi3.NewStringSchema())
+		openapi3.DefineStringFormatValidator("x-nested", openapi3.NewCallbackValidator(func(s string) error {
+			var doc any
+			if err := json.Unmarshal([]byte(s), &doc); err != nil {
+				return errors.New("not a JSON document")
+			}
+			return inner.VisitJSON(doc)
+		}))
 		openapi3.DefineStringFormatValidator("x-even-length", openapi3.NewCallbackValidator(func(s string) error {
 			if len(s)%2 != 0 {
 				return errors.New("odd length")
@@ -227,22 +247,37 @@ func c12RunWith(c *Case, withText bool) []any {
 		r["df"], _ = runMode(schema, v.f64)
 		// the request-side and response-side readings, in the three modes
 		var qde, qme, pde, pme error
-		r["qd"], qde = runMode(schema, v.num, openapi3.VisitAsRequest())
-		r["qf"], _ = runMode(schema, v.num, openapi3.VisitAsRequest(), openapi3.FailFast())
-		r["qm"], qme = runMode(schema, v.num, openapi3.VisitAsRequest(), openapi3.MultiErrors())
-		r["pd"], pde = runMode(schema, v.num, openapi3.VisitAsResponse())
-		r["pf"], _ = runMode(schema, v.num, openapi3.VisitAsResponse(), openapi3.FailFast())
-		r["pm"], pme = runMode(schema, v.num, openapi3.VisitAsResponse(), openapi3.MultiErrors())
+		// the directed readings install defaults into the value (as the request / response validators ask them to):
+		// every run gets a copy of its own
+		fresh := func() any { return decodeJSONText(taggedToJSONText(v.tagged), true) }
+		dset := openapi3.DefaultsSet(func() {})
+		qdv, qmv, pdv, pmv := fresh(), fresh(), fresh(), fresh()
+		r["qd"], qde = runMode(schema, qdv, openapi3.VisitAsRequest(), dset)
+		r["qf"], _ = runMode(schema, fresh(), openapi3.VisitAsRequest(), dset, openapi3.FailFast())
+		r["qm"], qme = runMode(schema, qmv, openapi3.VisitAsRequest(), dset, openapi3.MultiErrors())
+		r["pd"], pde = runMode(schema, pdv, openapi3.VisitAsResponse(), dset)
+		r["pf"], _ = runMode(schema, fresh(), openapi3.VisitAsResponse(), dset, openapi3.FailFast())
+		r["pm"], pme = runMode(schema, pmv, openapi3.VisitAsResponse(), dset, openapi3.MultiErrors())
+		// the value as the directed reading left it (with the defaults it installed): what its errors point into
+		completed := func(key string, x any) {
+			if t, ok := goToTagged(x); ok {
+				r[key] = t
+			}
+		}
 		if !withText {
 			// the errors of the two directed readings, where the directed reading rejects what the plain one accepts
 			// (the read-only / write-only rules): they must point at the data like any other schema error
 			if r["qd"] == "R" && r["d"] == "A" {
 				r["qde"] = projectTopErrors(qde, false)
 				r["qme"] = projectTopErrors(qme, false)
+				completed("qdev", qdv)
+				completed("qmev", qmv)
 			}
 			if r["pd"] == "R" && r["d"] == "A" {
 				r["pde"] = projectTopErrors(pde, false)
 				r["pme"] = projectTopErrors(pme, false)
+				completed("pdev", pdv)
+				completed("pmev", pmv)
 			}
 		}
 		// with an option that changes what is checked: it must reach every subschema in every mode
@@ -275,6 +310,18 @@ func c12RunWith(c *Case, withText bool) []any {
 			_, cme = runMode(schema, v.num, reasonOnly, openapi3.MultiErrors())
 			r["ce"] = projectTopErrors(ce, withText)
 			r["cme"] = projectTopErrors(cme, withText)
+			// the same customiser through the request-side and response-side readings (the read-only / write-only rules)
+			var qce, pce error
+			_, qce = runMode(schema, fresh(), reasonOnly, openapi3.VisitAsRequest(), openapi3.MultiErrors())
+			_, pce = runMode(schema, fresh(), reasonOnly, openapi3.VisitAsResponse(), openapi3.MultiErrors())
+			r["qce"] = projectTopErrors(qce, withText)
+			r["pce"] = projectTopErrors(pce, withText)
+			// details enabled and no customiser: the messages may quote the value, the Reason fields still may not
+			var re, rme error
+			_, re = runMode(schema, v.num)
+			_, rme = runMode(schema, v.num, openapi3.MultiErrors())
+			r["re"] = reasonsOnly(projectTopErrors(re, withText))
+			r["rme"] = reasonsOnly(projectTopErrors(rme, withText))
 			// the same value with typed Go slices ([]string, []map[string]any), as user code or a custom decoder may pass
 			if tv, changed := typedSlices(v.f64); changed {
 				_, te = runMode(schema, tv, reasonOnly)
